@@ -9,9 +9,10 @@ NAME = 'httpparse'
 TUS = [('src/common/stream.cc', 'Pistache'), ('src/common/http.cc', 'Pistache')]
 
 PRELUDE = _s.PRELUDE + r'''
+#include <stdlib.h>
 #include "vs_http.h"
 int vs_exc_code; long g_now; const char *g_buf_base; size_t g_buf_len, g_effects;
-int vs_nondet_method(void);
+static inline int vs_nondet_method(void) { int m; return m; }
 struct vs_opaque vs_http_methods;   /* the constant method-name table (written only by static initialisation) */
 /* value parsers called by HeadersStep::apply with a (pointer,length) range of the receive buffer: CookieJar::addFromRaw,
    Cookie::fromRaw, Header::parseRaw (virtual).  Assumed contract (DESIGN.md A.6): what they may rely on is exactly what the
@@ -22,15 +23,15 @@ extern const char *g_buf_base; extern size_t g_buf_len; extern size_t g_effects;
 void vs_eff_cookiejar_addFromRaw(struct vs_opaque *jar, const char *p, size_t n)
 __CPROVER_requires(EFF_RANGE_PRE(p, n))
 __CPROVER_assigns(g_effects, vs_exc, jar->o)
-__CPROVER_ensures(g_effects == OLD(g_effects) + 1);
+__CPROVER_ensures(g_effects == OLD(g_effects) + 1 && (vs_exc == 0 || VS_EXC_IS_STD(vs_exc)));
 struct vs_opaque vs_eff_cookie_fromRaw(const char *p, size_t n)
 __CPROVER_requires(EFF_RANGE_PRE(p, n))
 __CPROVER_assigns(g_effects, vs_exc)
-__CPROVER_ensures(g_effects == OLD(g_effects) + 1);
+__CPROVER_ensures(g_effects == OLD(g_effects) + 1 && (vs_exc == 0 || VS_EXC_IS_STD(vs_exc)));
 void vs_eff_header_parseRaw(struct vs_opaque *hdr, const char *p, size_t n)
 __CPROVER_requires(EFF_RANGE_PRE(p, n))
 __CPROVER_assigns(g_effects, vs_exc)
-__CPROVER_ensures(g_effects == OLD(g_effects) + 1);
+__CPROVER_ensures(g_effects == OLD(g_effects) + 1 && (vs_exc == 0 || VS_EXC_IS_STD(vs_exc)));
 /* typed headers as far as the body step looks at them, and shared_ptr to them (null or pointing to one) */
 struct vs_hdr_cl { uint64_t value_; };
 struct vs_hdr_te { int encoding_; };
@@ -110,7 +111,9 @@ TYPES.update({
     'std::unique_ptr<Pistache::Http::Private::Step>*': 'struct Pistache_Http_Private_Step **',
     'std::chrono::time_point<std::chrono::steady_clock, std::chrono::duration<long, std::ratio<1, 1000000000>>>': 'struct vs_timepoint',
     'std::vector<char>': 'struct vs_vec', 'Pistache::ArrayStreamBuf<char>::Base': 'struct vs_streambuf',
-    'Pistache::Http::Version': 'int', 'Pistache::Http::Code': 'int', 'Pistache::Http::Method': 'int',
+    'std::shared_ptr<Pistache::Http::Private::ParserImpl<Pistache::Http::Request>>': 'struct Pistache_Http_Private_ParserImpl_Pistache_Http_Request_ *',
+    'std::shared_ptr<RequestParser>': 'struct Pistache_Http_Private_ParserImpl_Pistache_Http_Request_ *',
+    'Pistache::Http::HttpError': 'int', 'std::exception': 'int', 'Pistache::Http::Version': 'int', 'Pistache::Http::Code': 'int', 'Pistache::Http::Method': 'int',
 })
 STUBS = dict(_s.STUBS)
 STUBS.update({
@@ -143,22 +146,43 @@ STUBS.update({
     'Pistache::Http::CookieJar::addFromRaw': 'vs_eff_cookiejar_addFromRaw',
     'Pistache::Http::Cookie::fromRaw': 'vs_eff_cookie_fromRaw',
     'var:Pistache::Http::httpMethods': 'vs_http_methods',
+    'Pistache::Http::Handler::getParser': 'vs_get_parser',
+    'operator->|std::__shared_ptr_access<Pistache::Http::Private::ParserImpl<Pistache::Http::Request>, __gnu_cxx::_S_atomic, false, false>': {'expr': '($0)'},
+    'Pistache::Http::HttpError::code': {'expr': 'vs_exc_code'},
+    'Pistache::Http::ResponseWriter::send': 'vs_rw_send',
     'std::exception::what': {'expr': '((const char *)0)'},
-    'strtol': 'vs_strtol', 'isxdigit': 'vs_isxdigit', 'std::string::size': 'vs_astr_size',
+    'strtol': 'vs_strtol', 'isxdigit': 'vs_isxdigit', 'isdigit': 'vs_isdigit', 'std::string::size': 'vs_astr_size',
 })
-NORMALISE = [(r'ParserImpl<Http::Request>', 'ParserImpl<Pistache::Http::Request>'),
+NORMALISE = [(r'std::shared_ptr<RequestParser>', 'std::shared_ptr<Pistache::Http::Private::ParserImpl<Pistache::Http::Request>>'),
+             (r'ParserImpl<Http::Request>', 'ParserImpl<Pistache::Http::Request>'),
              (r'std::unique_ptr<Step>', 'std::unique_ptr<Pistache::Http::Private::Step>'),
              (r'std::unique_ptr<Private::Step>', 'std::unique_ptr<Pistache::Http::Private::Step>'),
              (r', StepsCount>', ', 3>')]
+RECORD_ALIASES = {
+    'std::__shared_ptr_access<Pistache::Http::Private::ParserImpl<Pistache::Http::Request>, __gnu_cxx::_S_atomic, false, false>::element_type':
+        'Pistache::Http::Private::ParserImpl<Pistache::Http::Request>',
+}
 DEFAULT_RULE = True
 # Pistache functions called by the head steps but not lowered in this unit: assumed contract = frame (only the objects passed
 # by non-const reference change) + may throw.  Idempotence of the insertions (first value wins) is the assumed half of C01-L2.
-ASSUME_PISTACHE = ['Pistache::Http::Uri::Query::add', 'Pistache::Http::CookieJar::removeAllCookies', 'Pistache::Http::CookieJar::add',
+ASSUME_PISTACHE = ['ctor:Pistache::Http::ResponseWriter', 'Pistache::Http::ResponseWriter::', 'Pistache::Http::Request::', 'Pistache::Http::Message::',
+                   'Pistache::Tcp::', 'Pistache::Http::Header::Collection::', 'Pistache::Http::Header::Connection::', 'Pistache::Http::HttpError::',
+                   'Pistache::Http::Handler::transport', 'Pistache::Async::',
+                   'Pistache::Http::Uri::Query::add', 'Pistache::Http::CookieJar::removeAllCookies', 'Pistache::Http::CookieJar::add',
                    'Pistache::Http::Header::LowercaseEqualStatic', 'Pistache::Http::Header::Registry::', 'Pistache::Http::Header::Collection::add',
                    'Pistache::Http::Header::Collection::addRaw', 'ctor:Pistache::Http::Header::Raw', 'Pistache::Http::Header::Raw::']
+# header registry look-ups (written only during static initialisation): assumed pure
+ASSUME_PURE = ['Pistache::Http::Header::Registry::', 'Pistache::Http::Header::LowercaseEqualStatic', 'Pistache::Tcp::Handler::transport',
+               'Pistache::Http::Message::', 'Pistache::Tcp::Peer::', 'ctor:Pistache::Http::ResponseWriter', 'Pistache::Http::HttpError::',
+               'Pistache::Http::Header::Collection::tryGet', 'Pistache::Http::ResponseWriter::headers', 'Pistache::Http::Header::Connection::']
+# getters and the construction of the error response are assumed not to throw (otherwise onInput itself would let the exception escape)
+ASSUME_NOTHROW = ['ctor:Pistache::Http::ResponseWriter', 'Pistache::Http::Message::', 'Pistache::Tcp::Handler::transport', 'Pistache::Http::HttpError::',
+                  'Pistache::Tcp::Peer::', 'std::operator->']
 DEVIRT = {
     ('Pistache_Http_Private_ParserBase_reset', 'reset'): 'vs_virtual_Step_reset',
     ('Pistache_Http_Private_HeadersStep_apply', 'parseRaw'): 'vs_eff_header_parseRaw',
+    ('Pistache_Http_Handler_onInput', 'onRequest'): 'vs_user_onRequest',
+    ('Pistache_Http_Handler_onInput', 'reset'): 'Pistache_Http_Private_ParserImpl_reset',
     ('Pistache_Http_Private_ParserBase_parse', 'apply'): 'vs_virtual_Step_apply',
 }
 PRELUDE_AFTER_RECORDS = r'''
@@ -170,12 +194,30 @@ static inline struct Pistache_Http_Private_Step **vs_steps_at(struct vs_steps *a
 /* Trusted model of virtual dispatch over the parser's fixed step table.  The ParserImpl constructors install
    allSteps[0] = request-/response-line step, [1] = headers step, [2] = body step (ghost pointers name the concrete objects). */
 struct Pistache_Http_Private_BodyStep *g_body;
-struct Pistache_Http_Private_Step *g_line, *g_headers;
+struct Pistache_Http_Request *g_req; struct Pistache_Http_Response *g_resp;      /* ghost: the message object the steps refer to */
+struct Pistache_Http_Private_RequestLineStep *g_line; struct Pistache_Http_Private_HeadersStep *g_headers;
+struct Pistache_Http_Private_ParserImpl_Pistache_Http_Request_ *g_rp;             /* ghost: the request parser a ParserBase is embedded in */
+/* Handler::onInput environment (assumed): getParser() yields the parser stored with the peer; the user's onRequest() may throw any
+   std::exception / HttpError; ResponseWriter::send() records the status and does not throw */
+size_t g_onrequest_calls, g_send_calls; int g_sent_code; int g_parsed;   /* g_parsed: the bytes were handed to the parser */
+static inline struct Pistache_Http_Private_ParserImpl_Pistache_Http_Request_ *vs_get_parser(const struct vs_opaque *peer) { (void)peer; return g_rp; }
+static inline void vs_user_onRequest(struct Pistache_Http_Handler *h, const struct Pistache_Http_Request *req, struct vs_opaque resp)
+{
+    (void)h; (void)req; (void)resp;
+    g_onrequest_calls++;
+    { int k; if (k == VS_EXC_HTTP_ERROR || k == VS_EXC_RUNTIME_ERROR || k == VS_EXC_OTHER_STD) { vs_exc = k; int c; vs_exc_code = c; } }
+}
+static inline struct vs_opaque vs_rw_send(struct vs_opaque *resp, int code, const struct vs_astr *body)
+{
+    struct vs_opaque promise; (void)resp; (void)body;
+    g_send_calls++; g_sent_code = code;
+    return promise;
+}
 void Pistache_Http_Private_Step_reset(struct Pistache_Http_Private_Step *this);
 void Pistache_Http_Private_BodyStep_reset(struct Pistache_Http_Private_BodyStep *this);
 int Pistache_Http_Private_BodyStep_apply(struct Pistache_Http_Private_BodyStep *this, struct Pistache_StreamCursor *cursor);
-int vs_line_step_apply(struct Pistache_Http_Private_Step *this, struct Pistache_StreamCursor *cursor);
-int vs_headers_step_apply(struct Pistache_Http_Private_Step *this, struct Pistache_StreamCursor *cursor);
+int Pistache_Http_Private_HeadersStep_apply(struct Pistache_Http_Private_HeadersStep *this, struct Pistache_StreamCursor *cursor);
+int Pistache_Http_Private_RequestLineStep_apply(struct Pistache_Http_Private_RequestLineStep *this, struct Pistache_StreamCursor *cursor);
 static inline void vs_virtual_Step_reset(struct Pistache_Http_Private_Step *s)
 {
     if (s == &g_body->vs_base_Step) Pistache_Http_Private_BodyStep_reset(g_body);
@@ -184,16 +226,31 @@ static inline void vs_virtual_Step_reset(struct Pistache_Http_Private_Step *s)
 static inline int vs_virtual_Step_apply(struct Pistache_Http_Private_Step *s, struct Pistache_StreamCursor *cursor)
 {
     if (s == &g_body->vs_base_Step) return Pistache_Http_Private_BodyStep_apply(g_body, cursor);
-    if (s == g_headers) return vs_headers_step_apply(s, cursor);
-    return vs_line_step_apply(s, cursor);
+    if (s == &g_headers->vs_base_Step) return Pistache_Http_Private_HeadersStep_apply(g_headers, cursor);
+    return Pistache_Http_Private_RequestLineStep_apply(g_line, cursor);
 }
+/* well-formed request parser: buffer/cursor wiring, step table, every step refers to the parser's own request */
+#define PB(p) (&(p)->vs_base_ParserBase)
+#define RP_PRE(p) RP_PRE_(p, ASB_INV)
+/* reset() does not look at the get area: it is callable in any state of the area (it is called twice on the 413 path) */
+#define ASB_ANY(a) ((a)->bytes.size <= MAXLEN)      /* the old storage is released, never read */
+#define RP_PRE_ANY(p) RP_PRE_(p, ASB_ANY)
+#define RP_PRE_(p, ASB) (FRESH(p, sizeof(*(p))) && ASB(&PB(p)->buffer) && PTR_EQ(PB(p)->cursor.buf, &PB(p)->buffer.vs_base_StreamBuf) \
+    && FRESH(g_line, sizeof(*g_line)) && FRESH(g_headers, sizeof(*g_headers)) && FRESH(g_body, sizeof(*g_body)) \
+    && PTR_EQ(PB(p)->allSteps.s[0], &g_line->vs_base_Step) && PTR_EQ(PB(p)->allSteps.s[1], &g_headers->vs_base_Step) && PTR_EQ(PB(p)->allSteps.s[2], &g_body->vs_base_Step) \
+    && PTR_EQ(g_line->vs_base_Step.message, &(p)->request.vs_base_Message) && PTR_EQ(g_headers->vs_base_Step.message, &(p)->request.vs_base_Message) \
+    && PTR_EQ(g_body->vs_base_Step.message, &(p)->request.vs_base_Message) && PTR_EQ(g_body->chunk.message, &(p)->request.vs_base_Message) \
+    && PTR_EQ(g_req, &(p)->request))
+/* the state a freshly constructed parser is in (C04): empty buffer, cursor at 0, first step, body step without progress */
+#define PB_FRESH(b) ((b)->buffer.bytes.size == 0 && SB(&(b)->buffer).pos == 0 && SB(&(b)->buffer).len == 0 && SB(&(b)->buffer).base == 0 \
+    && (b)->currentStep == 0 && g_body->bytesRead == 0 && g_body->chunk.size == -1 && g_body->chunk.bytesRead == 0)
 '''
-THROWING = ['vs_eff_cookiejar_addFromRaw', 'vs_eff_cookie_fromRaw', 'vs_eff_header_parseRaw', 'vs_virtual_Step_apply', 'vs_astr_reserve', 'vs_astr_append_ptr_n', 'vs_astr_ctor_ptr_n']
+THROWING = ['vs_user_onRequest', 'vs_eff_cookiejar_addFromRaw', 'vs_eff_cookie_fromRaw', 'vs_eff_header_parseRaw', 'vs_virtual_Step_apply', 'vs_astr_reserve', 'vs_astr_append_ptr_n', 'vs_astr_ctor_ptr_n']
 ALWAYS_REPLACE = _s.ALWAYS_REPLACE + ['vs_eff_cookiejar_addFromRaw', 'vs_eff_cookie_fromRaw', 'vs_eff_header_parseRaw', 'vs_copy_back_insert', 'vs_strtol', 'vs_headers_tryGet_cl', 'vs_headers_tryGet_te']
-OPAQUE = ['Pistache::Http::Cookie', 'Pistache::Http::Header::Raw', 'Pistache::Http::Header::Registry', 'Pistache::Http::Header::Header', 'Pistache::Http::CookieJar', 'Pistache::Http::Header::Collection', 'Pistache::Http::Uri::Query', 'Pistache::Address',
+OPAQUE = ['Pistache::Http::Header::Connection', 'Pistache::Http::ConnectionControl', 'Pistache::Tcp::Handler', 'Pistache::Http::ResponseWriter', 'Pistache::Tcp::Peer', 'Pistache::Tcp::Transport', 'Pistache::Http::Cookie', 'Pistache::Http::Header::Raw', 'Pistache::Http::Header::Registry', 'Pistache::Http::Header::Header', 'Pistache::Http::CookieJar', 'Pistache::Http::Header::Collection', 'Pistache::Http::Uri::Query', 'Pistache::Address',
           'std::chrono::milliseconds']
 OPAQUE_UNKNOWN = True
-RECORDS = _s.RECORDS + ['Pistache::Http::Response', 'Pistache::Http::Private::RequestLineStep', 'Pistache::Http::Private::ResponseLineStep', 'Pistache::Http::Private::HeadersStep', 'Pistache::ArrayStreamBuf<char>', 'Pistache::Http::Request', 'Pistache::Http::Private::ParserBase',
+RECORDS = _s.RECORDS + ['Pistache::Http::Handler', 'Pistache::Http::Response', 'Pistache::Http::Private::RequestLineStep', 'Pistache::Http::Private::ResponseLineStep', 'Pistache::Http::Private::HeadersStep', 'Pistache::ArrayStreamBuf<char>', 'Pistache::Http::Request', 'Pistache::Http::Private::ParserBase',
                         'Pistache::Http::Private::ParserImpl<Pistache::Http::Request>', 'Pistache::Http::Message', 'Pistache::Http::Private::Step', 'Pistache::Http::Private::BodyStep::Chunk', 'Pistache::Http::Private::BodyStep']
 EXCEPTIONS = {'std::runtime_error': 'VS_EXC_RUNTIME_ERROR', 'Pistache::Http::HttpError': 'VS_EXC_HTTP_ERROR'}
 CATCH_TEST = {'std::exception': 'VS_EXC_IS_STD($)', 'Pistache::Http::HttpError': '($) == VS_EXC_HTTP_ERROR'}
@@ -212,21 +269,68 @@ FUNCTIONS = list(_s.FUNCTIONS) + [
         assigns SB(this).base, SB(this).pos, SB(this).len, this->bytes.data, this->bytes.size
         # C14: accepted exactly when the cumulative size stays within the limit, however the bytes were split
         ensures RET == (OLD(this->bytes.size) + len <= this->maxSize)
-        ensures SB(this).len == this->bytes.size && SB(this).pos == OLD(SB(this).pos)
-        ensures RET ==> SB(this).base == this->bytes.data
+        # (order matters when this contract replaces a call: the storage is made fresh first, then the area is tied to it)
+        ensures RET ==> (this->bytes.size == OLD(this->bytes.size) + len && FRESH(this->bytes.data, this->bytes.size))
+        ensures RET ==> PTR_EQ(SB(this).base, this->bytes.data)
         ensures !RET ==> SB(this).base == OLD(SB(this).base)
-        ensures RET ==> this->bytes.size == OLD(this->bytes.size) + len
+        ensures SB(this).len == this->bytes.size && SB(this).pos == OLD(SB(this).pos)
         ensures !RET ==> (this->bytes.size == OLD(this->bytes.size) && this->bytes.data == OLD(this->bytes.data))
         # C01-L6: the bytes already buffered are kept, the new bytes are the data fed
         ensures (RET && g_i < OLD(this->bytes.size)) ==> this->bytes.data[g_i] == g_old
         ensures (RET && OLD(this->bytes.size) <= g_i && g_i < this->bytes.size) ==> this->bytes.data[g_i] == data[g_i - OLD(this->bytes.size)]"""},
     {'q': 'Pistache::ArrayStreamBuf::reset', 'contract': """
-        requires FRESH(this, sizeof(*this)) && ASB_INV(this)
+        requires FRESH(this, sizeof(*this)) && ASB_ANY(this)
         assigns SB(this).base, SB(this).pos, SB(this).len, this->bytes
         ensures this->bytes.size == 0 && SB(this).pos == 0 && SB(this).len == 0 && SB(this).base == this->bytes.data"""},
     {'q': 'Pistache::StreamCursor::Token::text'},
-    {'q': 'Pistache::Http::Private::RequestLineStep::apply'},
-    {'q': 'Pistache::Http::Private::ResponseLineStep::apply'},
+    {'q': 'Pistache::Http::Private::RequestLineStep::apply', 'hoist_all': True, 'dead_ok': ['return State::Again;'], 'contract': """
+        requires CUR_PRE(cursor) && FRESH(this, sizeof(*this)) && FRESH(g_req, sizeof(*g_req)) && PTR_EQ(MSG(this), &g_req->vs_base_Message)
+        requires vs_exc == 0 && !g_hit_end
+        assigns POS(cursor), vs_exc, vs_exc_code, g_hit_end, g_req->method_, g_req->resource_.size, g_req->query_.o, g_req->vs_base_Message.version_
+        ensures POS(cursor) <= LEN(cursor)
+        # L1 (Revert discipline): need-more-data and every error leave the cursor where the step started
+        ensures vs_exc != 0 ==> POS(cursor) == OLD(POS(cursor))
+        ensures (vs_exc == 0 && RET == STATE_AGAIN) ==> POS(cursor) == OLD(POS(cursor))
+        ensures (vs_exc == 0 && RET != STATE_AGAIN) ==> (RET == STATE_NEXT && POS(cursor) >= OLD(POS(cursor)) + 2)
+        # L7 (extension stability): a step that succeeds never observed the end of the buffer, and no error is raised because data ran out
+        ensures (vs_exc == 0 && RET == STATE_NEXT) ==> !g_hit_end
+        ensures vs_exc == VS_EXC_HTTP_ERROR ==> !g_hit_end
+        # the line ends with CR LF directly before the new position
+        ensures (vs_exc == 0 && RET == STATE_NEXT) ==> (BYTE(cursor, POS(cursor) - 2) == CR && BYTE(cursor, POS(cursor) - 1) == LF)
+        # errors are HTTP errors (400) or whatever the assumed library insertions raise
+        ensures vs_exc == 0 || (vs_exc == VS_EXC_HTTP_ERROR && vs_exc_code == Pistache_Http_Code_Bad_Request) || vs_exc == VS_EXC_OTHER_STD""",
+     'loops': ["""
+        assigns POS(cursor), g_hit_end, n
+        invariant LOOP_ENTRY(POS(cursor)) <= POS(cursor) && POS(cursor) <= LEN(cursor) && (g_hit_end ==> POS(cursor) + 1 >= LEN(cursor))
+        decreases LEN(cursor) - POS(cursor)""", """
+        assigns POS(cursor), g_hit_end, n, vs_exc, g_req->query_.o, $HOISTED
+        invariant LOOP_ENTRY(POS(cursor)) <= POS(cursor) && POS(cursor) <= LEN(cursor) && (g_hit_end ==> POS(cursor) + 1 >= LEN(cursor)) && vs_exc == 0
+        decreases LEN(cursor) - POS(cursor)""", """
+        assigns POS(cursor), g_hit_end
+        invariant LOOP_ENTRY(POS(cursor)) <= POS(cursor) && POS(cursor) <= LEN(cursor) && (g_hit_end ==> POS(cursor) + 1 >= LEN(cursor))
+        decreases LEN(cursor) - POS(cursor)"""]},
+    {'q': 'Pistache::Http::Private::ResponseLineStep::apply', 'dead_ok': ['return State::Again;'],
+     'ghost': [('vs_strtol', 'before', 'g_w = cursor->buf->pos - codeToken.position;')],
+     'contract': """
+        requires CUR_PRE(cursor) && FRESH(this, sizeof(*this)) && FRESH(g_resp, sizeof(*g_resp)) && PTR_EQ(MSG(this), &g_resp->vs_base_Message)
+        requires vs_exc == 0 && !g_hit_end
+        assigns POS(cursor), vs_exc, vs_exc_code, g_hit_end, g_w, g_resp->vs_base_Message.code_
+        ensures POS(cursor) <= LEN(cursor)
+        # L1 (Revert discipline): need-more-data and every error leave the cursor where the step started
+        ensures vs_exc != 0 ==> POS(cursor) == OLD(POS(cursor))
+        ensures (vs_exc == 0 && RET == STATE_AGAIN) ==> POS(cursor) == OLD(POS(cursor))
+        ensures (vs_exc == 0 && RET != STATE_AGAIN) ==> (RET == STATE_NEXT && POS(cursor) >= OLD(POS(cursor)) + 2)
+        # L7 (extension stability): a step that succeeds never observed the end of the buffer, and no error is raised because data ran out
+        ensures (vs_exc == 0 && RET == STATE_NEXT) ==> !g_hit_end
+        ensures vs_exc == VS_EXC_HTTP_ERROR ==> !g_hit_end
+        # the line ends with CR LF directly before the new position
+        ensures (vs_exc == 0 && RET == STATE_NEXT) ==> (BYTE(cursor, POS(cursor) - 2) == CR && BYTE(cursor, POS(cursor) - 1) == LF)
+        # errors are HTTP errors (400) or whatever the assumed library insertions raise
+        ensures vs_exc == 0 || (vs_exc == VS_EXC_HTTP_ERROR && vs_exc_code == Pistache_Http_Code_Bad_Request) || vs_exc == VS_EXC_OTHER_STD""",
+     'loops': ["""
+        assigns POS(cursor), g_hit_end
+        invariant LOOP_ENTRY(POS(cursor)) <= POS(cursor) && POS(cursor) <= LEN(cursor) && (g_hit_end ==> POS(cursor) + 1 >= LEN(cursor))
+        decreases LEN(cursor) - POS(cursor)"""]},
     {'q': 'Pistache::Http::Private::HeadersStep::apply', 'hoist_all': True,
      # advance() refusals directly after a successful look-ahead (current() == ':' / ' ', eol()) are dead code
      'dead_ok': ['return State::Again;'], 'contract': """
@@ -238,10 +342,13 @@ FUNCTIONS = list(_s.FUNCTIONS) + [
         ensures vs_exc != 0 ==> POS(cursor) == OLD(POS(cursor))
         ensures (vs_exc == 0 && RET == STATE_AGAIN) ==> POS(cursor) == OLD(POS(cursor))
         ensures (vs_exc == 0 && RET != STATE_AGAIN) ==> (RET == STATE_NEXT && POS(cursor) >= OLD(POS(cursor)) + 2)
-        # L7 (extension stability): a step that succeeds never observed the end of the buffer
+        # L7 (extension stability): a step that succeeds never observed the end of the buffer, and no error is raised because data ran out
         ensures (vs_exc == 0 && RET == STATE_NEXT) ==> !g_hit_end
+        ensures vs_exc == VS_EXC_HTTP_ERROR ==> !g_hit_end
         # the head ends with an empty line: CR LF sits directly before the new position
-        ensures (vs_exc == 0 && RET == STATE_NEXT) ==> (BYTE(cursor, POS(cursor) - 2) == CR && BYTE(cursor, POS(cursor) - 1) == LF)""",
+        ensures (vs_exc == 0 && RET == STATE_NEXT) ==> (BYTE(cursor, POS(cursor) - 2) == CR && BYTE(cursor, POS(cursor) - 1) == LF)
+        # only std::exception-derived errors leave the step (so that Handler::onInput can answer them)
+        ensures vs_exc == 0 || VS_EXC_IS_STD(vs_exc)""",
      'loops': ["""
         assigns POS(cursor), g_effects, vs_exc, g_hit_end, MSG(this)->cookies_.o, MSG(this)->headers_.o, start, $HOISTED
         invariant LOOP_ENTRY(POS(cursor)) <= POS(cursor) && POS(cursor) <= LEN(cursor) && vs_exc == 0
@@ -256,13 +363,84 @@ FUNCTIONS = list(_s.FUNCTIONS) + [
         assigns POS(cursor), g_hit_end
         invariant start <= POS(cursor) && POS(cursor) <= LEN(cursor) && (g_hit_end ==> POS(cursor) + 1 >= LEN(cursor))
         decreases LEN(cursor) - POS(cursor)"""]},
+    {'q': 'Pistache::Http::Handler::onInput',
+     'ghost': [('Pistache_Http_Private_ParserBase_parse', 'before',
+                'g_buf_base = parser->vs_base_ParserBase.buffer.bytes.data; g_buf_len = parser->vs_base_ParserBase.buffer.bytes.size; g_hit_end = 0; g_parsed = 1;')],
+     'contract': """
+        requires FRESH(this, sizeof(*this)) && FRESH(peer, sizeof(*peer)) && RP_PRE(g_rp) && len <= MAXLEN && FRESH(buffer, len) && vs_exc == 0
+        requires g_i < PB(g_rp)->buffer.bytes.size ==> PB(g_rp)->buffer.bytes.data[g_i] == g_old
+        requires PB(g_rp)->currentStep <= 2 && PB(g_rp)->buffer.maxSize == vs_budget && vs_budget <= MAXLEN && PB(g_rp)->buffer.bytes.size <= PB(g_rp)->buffer.maxSize
+        requires CHUNK_INV(&g_body->chunk) && BODYSTEP_INV(g_body) && g_rp->request.vs_base_Message.body_.size <= MAXLEN
+        requires g_app_total == 0 && g_app_calls == 0 && g_onrequest_calls == 0 && g_send_calls == 0 && g_parsed == 0
+        assigns SB(&PB(g_rp)->buffer).base, SB(&PB(g_rp)->buffer).pos, SB(&PB(g_rp)->buffer).len, PB(g_rp)->buffer.bytes, PB(g_rp)->currentStep,
+                vs_exc, vs_exc_code, g_hit_end, g_effects, g_w, g_app_total, g_app_calls, g_app_src, g_buf_base, g_buf_len, g_now,
+                g_rp->request, g_rp->time_, g_body->bytesRead, g_body->chunk.size, g_body->chunk.alreadyAppendedChunkBytes, g_body->chunk.bytesRead,
+                g_onrequest_calls, g_send_calls, g_sent_code, g_parsed
+        # C03: every exception raised while parsing (or by the handler) is turned into an error response
+        ensures vs_exc == 0
+        ensures g_onrequest_calls <= 1 && g_send_calls <= 1
+        # C14: a read that takes the request over the limit is answered 413 and never reaches the handler
+        ensures OLD(PB(g_rp)->buffer.bytes.size) + len > vs_budget ==> (g_send_calls == 1 && g_sent_code == Pistache_Http_Code_Request_Entity_Too_Large && g_onrequest_calls == 0)
+        # ... and a read within the limit is never refused for its size
+        ensures (OLD(PB(g_rp)->buffer.bytes.size) + len <= vs_budget) == (g_parsed != 0)
+        # C04: whenever a message ends (handed to the handler, or answered with an error) the parser is back in its fresh state
+        ensures (g_onrequest_calls == 1 || g_send_calls == 1) ==> (PB_FRESH(PB(g_rp)) && vs_is_default_Pistache_Http_Request(&g_rp->request))
+        # need-more-data: everything received so far is kept for the continuation
+        ensures (g_onrequest_calls == 0 && g_send_calls == 0) ==> PB(g_rp)->buffer.bytes.size == OLD(PB(g_rp)->buffer.bytes.size) + len"""},
     {'q': 'Pistache::Http::Private::Step::raise'},
     {'q': 'Pistache::Http::Private::Step::reset'},
-    {'q': 'Pistache::Http::Private::BodyStep::reset'},
-    {'q': 'Pistache::Http::Private::ParserBase::reset'},
-    {'q': 'Pistache::Http::Private::ParserBase::feed'},
-    {'q': 'Pistache::Http::Private::ParserBase::parse'},
-    {'q': 'Pistache::Http::Private::ParserImpl::reset'},
+    {'q': 'Pistache::Http::Private::BodyStep::reset', 'contract': """
+        requires FRESH(this, sizeof(*this))
+        assigns this->bytesRead, this->chunk.size, this->chunk.bytesRead
+        ensures this->bytesRead == 0 && this->chunk.size == -1 && this->chunk.bytesRead == 0"""},
+    {'q': 'Pistache::Http::Private::ParserBase::reset', 'contract': """
+        requires RP_PRE_ANY(g_rp) && PTR_EQ(this, PB(g_rp))
+        assigns SB(&this->buffer).base, SB(&this->buffer).pos, SB(&this->buffer).len, this->buffer.bytes, this->currentStep,
+                g_body->bytesRead, g_body->chunk.size, g_body->chunk.bytesRead
+        # C04: nothing of the abandoned message survives in the parser base: buffer, cursor, step index, body-framing progress
+        ensures PB_FRESH(this)"""},
+    {'q': 'Pistache::Http::Private::ParserBase::feed', 'contract': """
+        requires RP_PRE(g_rp) && PTR_EQ(this, PB(g_rp)) && len <= MAXLEN && FRESH(data, len)
+        requires g_i < this->buffer.bytes.size ==> this->buffer.bytes.data[g_i] == g_old
+        assigns SB(&this->buffer).base, SB(&this->buffer).pos, SB(&this->buffer).len, this->buffer.bytes.data, this->buffer.bytes.size
+        ensures RET == (OLD(this->buffer.bytes.size) + len <= this->buffer.maxSize)
+        ensures RET ==> this->buffer.bytes.size == OLD(this->buffer.bytes.size) + len
+        ensures !RET ==> this->buffer.bytes.size == OLD(this->buffer.bytes.size)
+        ensures SB(&this->buffer).pos == OLD(SB(&this->buffer).pos) && SB(&this->buffer).len == this->buffer.bytes.size
+        ensures RET ==> SB(&this->buffer).base == this->buffer.bytes.data
+        ensures !RET ==> (this->buffer.bytes.data == OLD(this->buffer.bytes.data) && SB(&this->buffer).base == OLD(SB(&this->buffer).base))
+        ensures (RET && g_i < OLD(this->buffer.bytes.size)) ==> this->buffer.bytes.data[g_i] == g_old
+        ensures (RET && OLD(this->buffer.bytes.size) <= g_i && g_i < this->buffer.bytes.size) ==> this->buffer.bytes.data[g_i] == data[g_i - OLD(this->buffer.bytes.size)]"""},
+    {'q': 'Pistache::Http::Private::ParserBase::parse', 'contract': """
+        requires RP_PRE(g_rp) && PTR_EQ(this, PB(g_rp)) && this->currentStep <= 2 && vs_exc == 0 && !g_hit_end
+        requires PTR_EQ(g_buf_base, this->buffer.bytes.data) && g_buf_len == this->buffer.bytes.size && this->buffer.bytes.size <= vs_budget
+        requires CHUNK_INV(&g_body->chunk) && BODYSTEP_INV(g_body) && g_rp->request.vs_base_Message.body_.size <= MAXLEN
+        requires g_app_total == 0 && g_app_calls == 0
+        assigns SB(&this->buffer).pos, this->currentStep, vs_exc, vs_exc_code, g_hit_end, g_effects, g_w, g_app_total, g_app_calls, g_app_src,
+                g_rp->request, g_body->bytesRead, g_body->chunk.size, g_body->chunk.alreadyAppendedChunkBytes, g_body->chunk.bytesRead
+        # L5 (step sequencing): the step index only moves forward, one step per completed step, and never past the body step
+        ensures this->currentStep >= OLD(this->currentStep) && this->currentStep <= 2
+        ensures vs_exc == 0 ==> (RET == STATE_AGAIN || RET == STATE_DONE)
+        ensures vs_exc == 0 || VS_EXC_IS_STD(vs_exc)
+        ensures (vs_exc == 0 && RET == STATE_DONE) ==> this->currentStep == 2
+        ensures SB(&this->buffer).pos <= SB(&this->buffer).len && OLD(SB(&this->buffer).pos) <= SB(&this->buffer).pos
+        # a head step that needs more data leaves the cursor at the end of the last completed step; the body step keeps its invariant
+        ensures (vs_exc == 0 && RET == STATE_AGAIN) ==> (CHUNK_INV(&g_body->chunk) && BODYSTEP_INV(g_body))""",
+     'loops': ["""
+        assigns SB(&this->buffer).pos, this->currentStep, state, vs_exc, vs_exc_code, g_hit_end, g_effects, g_w, g_app_total, g_app_calls, g_app_src,
+                g_rp->request, g_body->bytesRead, g_body->chunk.size, g_body->chunk.alreadyAppendedChunkBytes, g_body->chunk.bytesRead, $HOISTED
+        invariant this->currentStep <= 2 && LOOP_ENTRY(this->currentStep) <= this->currentStep && vs_exc == 0 && !g_hit_end
+        invariant LOOP_ENTRY(SB(&this->buffer).pos) <= SB(&this->buffer).pos && SB(&this->buffer).pos <= SB(&this->buffer).len
+        invariant CHUNK_INV(&g_body->chunk) && BODYSTEP_INV(g_body) && g_rp->request.vs_base_Message.body_.size <= MAXLEN && g_app_total == 0 && g_app_calls == 0
+        decreases 3 - this->currentStep"""], 'hoist_all': True},
+    {'q': 'Pistache::Http::Private::ParserImpl::reset', 'contract': """
+        requires RP_PRE_ANY(this) && PTR_EQ(g_rp, this)
+        assigns SB(&PB(this)->buffer).base, SB(&PB(this)->buffer).pos, SB(&PB(this)->buffer).len, PB(this)->buffer.bytes, PB(this)->currentStep,
+                g_body->bytesRead, g_body->chunk.size, g_body->chunk.bytesRead, this->request, this->time_, g_now
+        # C04: after reset the parser is in the state of a freshly constructed one; the request is the value-initialised Request
+        ensures PB_FRESH(PB(this)) && vs_is_default_Pistache_Http_Request(&this->request)
+        # C14: the time-out clock restarts with the next request
+        ensures this->time_.ticks >= OLD(g_now)"""},
     {'q': 'Pistache::Http::Private::BodyStep::Chunk::Chunk'},
     {'q': 'Pistache::Http::Private::BodyStep::Chunk::reset'},
     {'q': 'Pistache::Http::Private::BodyStep::parseContentLength', 'contract': """
@@ -367,9 +545,23 @@ ADV = 'Pistache_StreamCursor_advance'
 CHUNK = 'Pistache_Http_Private_BodyStep_Chunk_parse'
 PCL = 'Pistache_Http_Private_BodyStep_parseContentLength'
 PTE = 'Pistache_Http_Private_BodyStep_parseTransferEncoding'
+MUC, MUIL = 'Pistache_match_until_c', 'Pistache_match_until_il'
 PROOFS = [
+    {'name': 'RequestLineStep_apply', 'enforce': 'Pistache_Http_Private_RequestLineStep_apply', 'replace': [ADV, MUC, MUIL], 'loops': 'contracts',
+     'props': ['C01', 'C03'], 'cost': 90, 'timeout': 1500},
+    {'name': 'ResponseLineStep_apply', 'enforce': 'Pistache_Http_Private_ResponseLineStep_apply', 'replace': [ADV, MUC, 'Pistache_match_raw'], 'loops': 'contracts',
+     'props': ['C01', 'C03'], 'cost': 30, 'timeout': 1500},
     {'name': 'HeadersStep_apply', 'enforce': 'Pistache_Http_Private_HeadersStep_apply', 'replace': [ADV], 'loops': 'contracts',
      'props': ['C01', 'C03'], 'cost': 100, 'timeout': 1500},
+    {'name': 'BodyStep_reset', 'enforce': 'Pistache_Http_Private_BodyStep_reset', 'props': ['C04']},
+    {'name': 'ParserBase_reset', 'enforce': 'Pistache_Http_Private_ParserBase_reset', 'loops': ('unwind', 5), 'props': ['C04', 'C03'],
+     'complete': 'range-for over std::array<unique_ptr<Step>, 3>: exactly three iterations; unwinding assertions hold'},
+    {'name': 'ParserBase_feed', 'enforce': 'Pistache_Http_Private_ParserBase_feed', 'replace': ['Pistache_ArrayStreamBuf_feed'], 'props': ['C14', 'C03']},
+    {'name': 'ParserImpl_reset', 'enforce': 'Pistache_Http_Private_ParserImpl_reset', 'replace': ['Pistache_Http_Private_ParserBase_reset'], 'props': ['C04', 'C14']},
+    {'name': 'ParserBase_parse', 'enforce': 'Pistache_Http_Private_ParserBase_parse', 'loops': 'contracts', 'props': ['C01', 'C03'], 'cost': 40,
+     'replace': ['Pistache_Http_Private_BodyStep_apply', 'Pistache_Http_Private_HeadersStep_apply', 'Pistache_Http_Private_RequestLineStep_apply']},
+    {'name': 'onInput', 'enforce': 'Pistache_Http_Handler_onInput', 'props': ['C03', 'C04', 'C14'], 'cost': 20,
+     'replace': ['Pistache_ArrayStreamBuf_feed', 'Pistache_Http_Private_ParserBase_parse', 'Pistache_Http_Private_ParserImpl_reset']},
     {'name': 'feed', 'enforce': 'Pistache_ArrayStreamBuf_feed', 'props': ['C01', 'C03', 'C14']},
     {'name': 'feed_after_reset', 'enforce': 'Pistache_ArrayStreamBuf_feed', 'props': ['C04', 'C03', 'C14'], 'defs': ['-DVS_AFTER_RESET'],
      'harness': 'void h_feed_after_reset(void) { struct Pistache_ArrayStreamBuf_char_ *a0; char *a1; size_t a2; Pistache_ArrayStreamBuf_feed(a0, a1, a2); }\n'},
